@@ -43,7 +43,8 @@ def nl(s):
 
 
 def inner_texts(rng, tier):
-    out = ["select * from t where name = ''", "select 'it''s' from t", 'select @v, @@sv from t', "select 1.50, 007 from t",
+    out = ["select 'first\nsecond'||suffix AND id > 10 from t", "select 'a\nb',c d from t",
+           "select * from t where name = ''", "select 'it''s' from t", 'select @v, @@sv from t', "select 1.50, 007 from t",
            'select a,\n   b -- c\n from t\nwhere x = 1', 'select /* c */ a from (select b from u) s', 'select f(a, (b)) from t',
            "select a from t where b = 'x' and c = \"y\"", "select `a b`.c from t", 'select "a\\"b" from t',
            "select '\\'' from t", "select a\n\n\nfrom t", "  select 1", "select 1   ", "select\t1"]
@@ -51,7 +52,8 @@ def inner_texts(rng, tier):
     rng.shuffle(base)
     out += [s for s in base[: (60 if tier == 'quick' else 400)] if s.lower().lstrip().startswith('select')]
     frags = ["'a'", "''", "'it''s'", "'\\''", '"q"', '@v', '@@s', '`x y`', '1.0', '42', 'a.b', '(1)', '( )', '-- c\n', '/* m\n */',
-             ' ', '  ', '\n', '\n  ', ',', '=', 'select', 'from', 't', 'where', 'x', '*', '+']
+             ' ', '  ', '\n', '\n  ', ',', '=', 'select', 'from', 't', 'where', 'x', '*', '+',
+             "'p\nq'||r", "'p\nq',s", '"m\nn"=k', "'a\n\nb'||c and d", '/* x\n y */z']
     for _ in range(150 if tier == 'quick' else 3000):
         n = rng.randint(2, 10)
         s = 'select ' + ' '.join(rng.choice(frags) for _ in range(n))
